@@ -29,7 +29,8 @@ META = dict(
                 'over any schedule of short transfers is the atomic RPC of the world model, and whole histories executed over schedules chosen per call by an '
                 'adversary are the atomic histories when every frame fits the 32-bit header fields (history_over_any_transfer_schedules_is_the_atomic_history); its second attempt sends exactly the original request; under '
                 'failures anywhere it returns the genuine answer to a first or second execution or throws, and one failure with a working reconnect is '
-                'masked (transmit_*, retry_sends_exactly_the_original_request, one_failure_and_a_working_reconnect_are_masked); with servers down a fetch '
+                'masked, and after any single failure point in the answer header or BODY the retry re-sends header and payload of the original request '
+                '(transmit_*, retry_sends_exactly_the_original_request, retry_after_any_single_failure_resends_header_and_payload, one_failure_and_a_working_reconnect_are_masked); with servers down a fetch '
                 'that returns is current, failed calls change no server (nstep theorems); different server list orders disagree on some key and a reversed '
                 'list refutes the property (assumption shown necessary); field sizes/adjacency of tcp_operation_header from the source. The model is run '
                 'against the real client/server code on the same histories (also with every readv/writev cut into 1..n byte transfers, with connections '
@@ -233,7 +234,7 @@ def gen_history(rng, bad_names=False, nops=None, raw=False, down=False):
         if inject and r < 0.65 and rng.random() < 0.25:
             # the next store / fetch loses its connection inside the answer header (after 0 bytes only before a fetch: whether the
             # server has executed a request whose answer was not read at all is a race)
-            ops.append('Z:%d' % (rng.choice([0, 1, 4, 5, 8, 16, 39]) if r >= 0.30 else rng.choice([1, 2, 4, 5, 8, 16, 39])))
+            ops.append('Z:%d' % (rng.choice([0, 1, 4, 5, 8, 16, 39, 40, 41, 42, 43, 45, 48, 60, 339]) if r >= 0.30 else rng.choice([1, 2, 4, 5, 8, 16, 39])))
         if r < 0.30:
             v = rng.choice(VALS) if rng.random() < 0.6 else rand_bytes(rng, rng.randrange(0, 6))
             x = rng.random()
@@ -268,6 +269,57 @@ def gen_history(rng, bad_names=False, nops=None, raw=False, down=False):
             # a foreign peer that stores follows the key spread; other frames go anywhere
             sv = py_hash(p[:struct.unpack('<I', h[24:28])[0]], ns) if h[:4] == b'\x03\0\0\0' else rng.randrange(ns)
             ops.append('W:%d:%s:%s' % (sv, hexs(h), hexs(p)))
+    return 'H %d %s %s' % (ns, flags, ' '.join(ops))
+
+
+def gen_body_failure_history(rng):
+    """the connection fails INSIDE the body of the answer to a fetch (failure point swept byte by byte over header end .. last byte)
+    while the stored values are adversarial: the value of key A begins with the bytes of another stored key B of the same length,
+    and B holds a different value. If anything of the half-received answer leaks into the retried request (the request string
+    shares memory with the answer in messenger::transmit), fetch(A) asks for B. The fetching node then reads A and B again with
+    no failure: its L1 must not have kept a wrong value."""
+    ns = rng.choice([1, 1, 2, 3])
+    flags = rng.choice(['10', '01', '11', '101', '00'])
+    klen = rng.choice([1, 1, 2, 3, 5, 8])
+    a = rand_bytes(rng, klen)
+    b = rand_bytes(rng, klen)
+    while b == a:
+        b = rand_bytes(rng, klen)
+    c3 = rand_bytes(rng, klen)
+    va = b + rng.choice([b'', b'-of-A', a, rand_bytes(rng, rng.randrange(0, 9)), c3 + b'x' * rng.choice([0, 20])])
+    vb = rng.choice([b'value-of-B', a + b'-of-B', rand_bytes(rng, rng.randrange(1, 6)), b''])
+    trg = rng.choice([[], [], [b't'], [b't', b'u']])
+    writer = rng.randrange(len(flags))
+    ops = ['S:%d:%s:%s:2000:%s' % (writer, hexs(a), hexs(va), trigs_field(trg)),
+           'S:%d:%s:%s:2000:_' % (rng.randrange(len(flags)), hexs(b), hexs(vb))]
+    if rng.random() < 0.3:
+        ops.append('S:%d:%s:%s:2000:_' % (writer, hexs(c3), hexs(b'value-of-C')))
+    reader = rng.randrange(len(flags))
+    if rng.random() < 0.5:
+        ops.append('F:%d:%s' % (reader, hexs(a)))          # the reader has A (and maybe B) in its L1: the failing fetch is a revalidation
+        if rng.random() < 0.5:
+            ops.append('S:%d:%s:%s:2000:%s' % (writer, hexs(a), hexs(va + b'!'), trigs_field(trg)))
+            va = va + b'!'
+    # answer to F with triggers: 40 byte header, value, then key and trigger names NUL-terminated
+    body = len(va) + len(a) + 1 + sum(len(t) + 1 for t in trg)
+    pts = list(range(40, 40 + body))
+    for n in (pts if len(pts) <= 14 else sorted(rng.sample(pts, 14))):
+        op = 'F' if rng.random() < 0.8 else 'G'
+        if flags[reader] == '1':
+            # a node with L1 gets a body only when its copy is missing or out of date (else the answer is the bare `uptodate` header)
+            x = rng.random()
+            if x < 0.6:
+                ops.append('E:%d:%s' % (reader, hexs(a)))
+            elif x < 0.85:
+                va = va[:-1] + bytes([(va[-1] + 1) % 256]) if va else va
+                ops.append('S:%d:%s:%s:2000:%s' % (writer, hexs(a), hexs(va), trigs_field(trg)))
+        ops.append('Z:%d' % n)
+        ops.append('%s:%d:%s' % (op, reader, hexs(a)))
+        if rng.random() < 0.5:
+            ops.append('F:%d:%s' % (reader, hexs(rng.choice([a, b]))))
+        if rng.random() < 0.15:
+            ops.append('E:%d:%s' % (reader, hexs(a)))
+    ops += ['F:%d:%s' % (reader, hexs(a)), 'F:%d:%s' % (reader, hexs(b)), 'F:%d:%s' % (reader, hexs(a))]
     return 'H %d %s %s' % (ns, flags, ' '.join(ops))
 
 
@@ -460,6 +512,9 @@ def gen_cases(ctx):
     # servers going down and coming up again (connection refused): calls that need such a server must throw, nothing else changes
     for _ in range(ctx.scale(700, 5000)):
         cases.append(gen_history(rng, raw=rng.random() < 0.3, down=True))
+    # the connection fails inside the BODY of the answer to a fetch, adversarial values (value of A begins with another stored key B)
+    for _ in range(ctx.scale(400, 4000)):
+        cases.append(gen_body_failure_history(rng))
     # the connection fails in the middle of an answer: what the second attempt of messenger::transmit sends
     for _ in range(ctx.scale(500, 5000)):
         cases.append(gen_cut_probe(rng))
@@ -533,6 +588,7 @@ def oracle_history(c, out):
         return ('server-order-differs', 'nodes with different server list orders: ' + r[1]) if r else None
     seen_gen = [dict() for _ in range(ns)]   # server -> generation -> (key, value, dl)
     up = [True] * ns
+    vals_of = {}
     inject = -1
     has_down = any(o.startswith('D:') for o in c[3:])
 
@@ -587,6 +643,7 @@ def oracle_history(c, out):
             else:
                 lossy.discard(k)
             spec[k] = (v, ts | {k}, dl)
+            vals_of.setdefault(k, []).append(v)
         elif op == 'R':
             t = unhex(f[2])
             for k in [k for k, e in spec.items() if t in e[1]]:
@@ -627,11 +684,21 @@ def oracle_history(c, out):
             if restarted and ((cl is None) != (sv is None) or (cl is not None and (cl['v'] != sv['v'] or cl['dl'] != sv['dl']))):
                 return ('stale-after-server-restart', 'after a cache server restart (generation counter back at 0) the client answered %s '
                         'but the server holds %s for key %s' % (cl and cl['v'][:40].hex(), sv and sv['v'][:40].hex(), k.hex()))
+            if cl is not None and sv is None:
+                others = [k2 for k2, e2 in spec.items() if k2 != k and e2[0] == cl['v'] and e2[2] >= now]
+                if others and not any(e0 == cl['v'] for e0 in vals_of.get(k, ())):
+                    return ('fetch-returns-other-keys-value', 'fetch(%s) returned %s, the current value of key %s, while the server holds nothing for the '
+                            'requested key' % (hexs(k), hexs(cl['v'][:40]), hexs(others[0])))
             if (cl is None) != (sv is None):   # (also right after an injected connection failure: the retry must deliver the answer)
                 return ('fetch-not-current', 'client %s but server %s for key %s' % (
                     'found' if cl else 'not found', 'holds a value' if sv else 'holds nothing', k.hex()))
             if cl is not None:
                 if cl['v'] != sv['v']:
+                    others = [k2 for k2, e2 in spec.items() if k2 != k and e2[0] == cl['v'] and e2[2] >= now]
+                    if others and not any(e0 == cl['v'] for e0 in vals_of.get(k, ())):
+                        return ('fetch-returns-other-keys-value', 'fetch(%s) by node %s returned %s, which is the current value of key %s (never a value of '
+                                'the requested key); the server holds %s%s' % (hexs(k), f[1], hexs(cl['v'][:40]), hexs(others[0]), hexs(sv['v'][:40]),
+                                                                               ' [right after an injected connection failure]' if injected >= 0 else ''))
                     return ('fetch-stale-value', 'client returned %s, the server holds %s (key %s)' % (cl['v'][:40].hex(), sv['v'][:40].hex(), k.hex()))
                 if cl['dl'] != sv['dl']:
                     return ('fetch-stale-deadline', 'client deadline %d, server %d' % (cl['dl'], sv['dl']))
@@ -735,6 +802,9 @@ def oracle_cut_probe(c, out):
     f2 = o[2].split('.')
     if len(f1) != 2 or len(f2) != 3:
         return ('bad-output', 'unexpected capture ' + out[:100])
+    if f2[0] == f1[0] and int(f2[2]) == len(unhex(f1[1])) and f2[1] != f1[1]:
+        return ('retry-sends-overwritten-payload', 'after a failure %d bytes into the answer the second attempt of messenger::transmit sent the payload %s '
+                'instead of the request payload %s (the request string was overwritten by the half-received answer)' % (cut, f2[1][:80], f1[1][:80]))
     if f2[0] != f1[0] or int(f2[2]) != len(unhex(f1[1])):
         return ('retry-sends-overwritten-header', 'after a failure %d bytes into the answer the second attempt of messenger::transmit sent header %s '
                 'with %s payload bytes instead of the request (%s, %d bytes)' % (cut, f2[0], f2[2], f1[0], len(unhex(f1[1]))))
@@ -897,7 +967,7 @@ def classify(case, out):
     if any(x.startswith('D:') for x in c[3:]):
         return 'hist:server-down:srv%s:%s' % (c[1], 'some-call-threw' if ' !' in out else 'no-call-threw')
     if any(x.startswith('Z:') for x in c[3:]):
-        return 'hist:connection-failures:srv%s' % c[1]
+        return 'hist:connection-failures:%s:srv%s' % ('in-body' if any(x.startswith('Z:') and int(x[2:]) >= 40 for x in c[3:]) else 'in-header', c[1])
     if any(x.startswith('Y:') for x in c[3:]):
         return 'hist:short-transfers:srv%s' % c[1]
     return 'hist:srv%s:l1=%s:%s' % (c[1], 'all' if '0' not in fl else 'none' if '1' not in fl else 'mixed',
@@ -985,6 +1055,9 @@ def run(ctx):
         'modulo 2^32 are generated and must be answered `error` with the server alive (corpus/C10/wrap_regress.case is the frame that crashed it)',
         'repaired (/repo d350cd9, was finding retry-sends-overwritten-header): after a connection failure in mid-answer the second attempt of '
         'messenger::transmit must send the request again byte for byte and deliver the genuine answer (probes P Z, histories with Z:n)',
+        'failure points inside the BODY of a fetch answer are swept byte by byte with adversarial contents (the value of key A begins with another '
+        'stored key B of the same length): a transmit that lets the half-received body reach the request string would ask for B on the retry '
+        '(oracle keys fetch-returns-other-keys-value, retry-sends-overwritten-payload)',
         'observation: nodes configured with different orders of the server list do not see each other\'s stores (assumption shown necessary: '
         'reversed_server_order_refutes_the_property, docs/C10_order.case)',
         'the harness closes all its TCP sockets with RST (SO_LINGER 0 via an interposed socket()) to keep loopback TIME_WAIT entries low']
@@ -1013,7 +1086,8 @@ def run(ctx):
         'keys, judged by the oracle alone: no fetch may return a value that a completed later store/rise/clear had replaced). Histories with short '
         'transfers (Y:n: every readv/writev on a socket moves at most 1..n bytes), with servers going down and up (D:s / U:s: calls that need a server '
         'that is down must throw, all others must not, a broadcast reaches the servers before the first one that is down), probes with the connection '
-        'closed after `cut` bytes of the answer (P Z), nodes with the reversed server list on one server, a layout probe (L). A history is non-trivial when at least one fetch returned a value; distinct = distinct case lines.')
+        'closed after `cut` bytes of the answer (P Z), histories whose injected failure point Z:n sweeps the body of a fetch answer byte by byte with '
+        'adversarial values (value of A begins with key B), nodes with the reversed server list on one server, a layout probe (L). A history is non-trivial when at least one fetch returned a value; distinct = distinct case lines.')
     ctx.coverage['exhaustive'] = False
     ctx.coverage['exhaustive_parts'] = ['all histories of length <= %d over the 8-operation alphabet that contain a fetch' % ctx.scale(5, 6)]
     mark('case_generation')
